@@ -156,6 +156,45 @@ CHECKS = {
         technique='Coq proof (accounting/credit invariants of the greedy loop by induction on fuel) + '
                   'extracted-model correspondence fed with the real match table',
         design='7 C18'),
+    'C03': dict(
+        text='Theorems over an executable Gallina model of the whole Extractor (clean, categories, coarse classification, '
+             'run-length encoding, VRLEs, fragment refinement, rendering, sample / extract / check / extend loop) for every '
+             'character table, option record and oracle tables: whenever a run ends with a check that reported no failure, '
+             'every example clean keeps is matched by a returned expression; clean discards exactly nulls, zero counts and '
+             '(on request) empties and its output is well formed; the check is complete. The extracted model replays every '
+             'real run from its recorded oracle tables (group splits, re.match results, random.sample choices) and must '
+             'return exactly the same expressions and working examples; character-level semantics, regex texts and '
+             'classifications are swept against CPython re; the property itself is checked on every run.',
+        note='partial: that the expressions of one batch extraction match the working examples they came from is validated by '
+             'the replay + coverage oracle, not yet a theorem (the loop theorem takes the final check\'s outcome as hypothesis, '
+             'observed on every run); re.match, the group split and random.sample are oracle tables; pruning options and the '
+             'portable/grep re-rendering are outside the loop theorem. Known finding: non-ASCII decimal digits under portable/grep.',
+        technique='Coq proof (loop/check/clean theorems over the Extractor model) + extracted-model replay of recorded oracle '
+                  'tables + code-point sweeps + coverage oracle',
+        design='7 C03'),
+    'C13': dict(
+        text='Theorems over the Extractor model: every returned expression is ^...$, there are never more expressions than '
+             'stored distinct working examples, nothing is returned when clean keeps nothing, the fragments chosen do not '
+             'depend on the tag option and a tagged fragment is the untagged one inside one capturing group. The extracted '
+             'model replays every real run (exact expressions); each returned expression is compiled, checked for anchoring, '
+             'for matching an example, for duplicates and count; every run is repeated with tagging flipped and both '
+             'results are compared on the examples and near-miss probes.',
+        note='partial: "matches at least one example", "no expression twice" and the language equality of tagged and untagged '
+             'expressions are decided by the run-time oracle and the replay, not by a theorem; re.compile / re.match are CPython\'s.',
+        technique='Coq proof (shape/count/tagging theorems over the Extractor model) + extracted-model replay + expression oracle',
+        design='7 C13'),
+    'C14': dict(
+        text='Theorems over a model of how the Extractor uses the global generator (any generator: state type, seeding, one '
+             'transition per sample): with a seed the global state after the call equals the state before it, and the states '
+             'the samples are drawn from depend on the seed only. The model predicts the exact getstate/seed/sample/setstate '
+             'call sequence of every real run; the Extractor model replays every run; reordering, list-vs-dictionary, repeated '
+             'calls, repeated examples, seeded reproducibility (forced sampling and >4000-string inputs) and the generator '
+             'state are checked directly.',
+        note='partial: invariance under reordering / multiplicity is decided by the run-time oracle and the replay (the model\'s '
+             'VRLE sort and per-fragment accumulators), not yet by a permutation theorem; random is CPython\'s.',
+        technique='Coq proof (generator protocol: restored state, seed-only dependence) + call-trace correspondence + '
+                  'extracted-model replay + reordering/reproducibility oracle',
+        design='7 C14'),
 }
 
 NOT_YET = {}
